@@ -219,21 +219,43 @@ func history(r *mon.Run, c Case) {
 		useDefault := fl == 2 && it.c.Variant == 0 && malformed == "" && rng.IntN(2) == 0
 		expanded := rng.IntN(2) == 0
 		var bit, pan bool
+		// the verifier gets the caller's own buffers and option struct, which the caller overwrites as soon as Add has
+		// returned: an entry stands for the values it was added with. (A cofactorless entry keeps the caller's signature
+		// slice by design - it needs R's bytes for the final comparison - so that one buffer is left alone.)
+		clone := func(b []byte) []byte {
+			if b == nil {
+				return nil
+			}
+			return append(make([]byte, 0, len(b)+8), b...)
+		}
+		cpk, cmsg, csig := ed25519.PublicKey(clone(pk)), clone(msg), clone(sig)
+		co := *o
 		if expanded {
 			bit, pan = singleExpanded(exp, msg, sig, o)
 			if useDefault {
-				bv.AddExpanded(exp, msg, sig)
+				bv.AddExpanded(exp, cmsg, csig)
 			} else {
-				bv.AddExpandedWithOptions(exp, msg, sig, o)
+				bv.AddExpandedWithOptions(exp, cmsg, csig, &co)
 			}
 		} else {
 			bit, pan = single(pk, msg, sig, o)
 			if useDefault {
-				bv.Add(pk, msg, sig)
+				bv.Add(cpk, cmsg, csig)
 			} else {
-				bv.AddWithOptions(pk, msg, sig, o)
+				bv.AddWithOptions(cpk, cmsg, csig, &co)
 			}
 		}
+		for _, b := range [][]byte{cpk, cmsg} {
+			for i := range b {
+				b[i] ^= 0xff
+			}
+		}
+		if o.Verify == nil || !o.Verify.CofactorlessVerify {
+			for i := range csig {
+				csig[i] ^= 0xff
+			}
+		}
+		co.Context, co.Hash, co.Verify = "overwritten after Add", crypto.SHA512, ed25519.VerifyOptionsStdLib
 		r.Eval(it.c.Key())
 		r.Hist(fmt.Sprintf("entry/%s/bit=%v/expanded=%v", famClass(it.c.Fam, malformed), bit, expanded))
 		step(fmt.Sprintf("Add(expanded=%v fam=%s flags=%02d malformed=%q single=%v single-panics=%v)", expanded, it.c.Fam, fl, malformed, bit, pan))
@@ -380,7 +402,11 @@ func cacheProgram(r *mon.Run, c Case) {
 				if fl == 0 && it.c.Variant == 0 && false {
 					got = v.Verify(pk, it.msg, it.sig)
 				} else {
-					got = v.VerifyWithOptions(pk, it.msg, it.sig, o)
+					kbuf := append(make([]byte, 0, len(pk)+8), pk...)
+					got = v.VerifyWithOptions(kbuf, it.msg, it.sig, o)
+					for i := range kbuf {
+						kbuf[i] ^= 0xff
+					}
 				}
 			})
 			trace = append(trace, fmt.Sprintf("VerifyWithOptions(key=%x.. fam=%s flags=%02d) plain=%v cache=%v", pk[:min(4, len(pk))], it.c.Fam, fl, want, got))
@@ -416,7 +442,12 @@ func cacheProgram(r *mon.Run, c Case) {
 				fail("cache/AddWithOptions/bits", fmt.Sprintf("batch through the cache %v, plain [%v %v]", bits, want, w2))
 			}
 		default:
-			pan, msg := mon.Try(func() { v.AddPublicKey(pk) })
+			// the cache gets the caller's own key buffer, which the caller overwrites once the call has returned
+			kbuf := append(make([]byte, 0, len(pk)+8), pk...)
+			pan, msg := mon.Try(func() { v.AddPublicKey(kbuf) })
+			for i := range kbuf {
+				kbuf[i] ^= 0xff
+			}
 			trace = append(trace, fmt.Sprintf("AddPublicKey(%x..)", pk[:min(4, len(pk))]))
 			r.Hist("cache/AddPublicKey")
 			if pan {
